@@ -256,10 +256,10 @@ func c03Decode(c *Ctx) {
 			}
 		}
 		// decoder history: per word Lsh 11 then Or index, words in order
-		dec, _ := ana.FindX(c.P, "obj(call<math/big.NewInt>(0), maybe(call<(*math/big.Int).Lsh>(self, self, 11)), maybe(call<(*math/big.Int).Or>(self, self, call<math/big.NewInt>(conv<int64>(call<(repo/pkg/bip39/wordlist.List).Index>(load(global<repo/pkg/bip39.wordList>), load(iaddr(p0, bin<+>(ind<+1>(-1), 1)))))))), ...)", valT)
+		dec, _ := ana.FindX(c.P, "obj(alloc<math/big.Int>, maybe(call<(*math/big.Int).Lsh>(self, self, 11)), maybe(call<(*math/big.Int).Or>(self, self, call<math/big.NewInt>(conv<int64>(call<(repo/pkg/bip39/wordlist.List).Index>(load(global<repo/pkg/bip39.wordList>), load(iaddr(p0, bin<+>(ind<+1>(-1), 1)))))))), ...)", valT)
 		r.Check(dec != nil, "C03.bit-layout.decode-loop", c.ipos(e.Instr), "decoder = for each word first→last: decoder<<11 | Index(word), starting from 0")
 		// entropy bytes = padded (decoder >> n).Bytes()
-		pb, okP := ana.MatchX(c.P, "call<*>(call<(*math/big.Int).Bytes>(obj(call<math/big.NewInt>(0), maybe(_), maybe(_), call<(*math/big.Int).Rsh>(self, self, conv<uint>($n)))), alt(bin</>($bits, 8), bin<>>>($bits, 3)))", valT)
+		pb, okP := ana.MatchX(c.P, "call<*>(call<(*math/big.Int).Bytes>(obj(alloc<math/big.Int>, maybe(_), maybe(_), call<(*math/big.Int).Rsh>(self, self, conv<uint>($n)))), alt(bin</>($bits, 8), bin<>>>($bits, 3)))", valT)
 		r.Check(okP && pb["$n"].String() == nT.String(), "C03.checksum-gate.entropy-split", c.ipos(e.Instr), "entropy = pad((decoder >> n).Bytes(), ENT/8)")
 	}
 	r.Floor("C03.floor.decode-success", okRet, 1, "success returns of MnemonicToEntropy")
@@ -440,7 +440,7 @@ func c03Encode(c *Ctx) {
 					r.Viol("C03.bit-layout.bits-to-word-count", c.ipos(st), "word slice is not make(Mnemonic, f(len(entropy)*8)): %s", short(words.String(), 200))
 				}
 				vt := b.Of(st.Val, st)
-				pat := "call<(repo/pkg/bip39/wordlist.List).Word>(load(global<repo/pkg/bip39.wordList>), conv<int>(call<(*math/big.Int).Int64|(*math/big.Int).Uint64>(obj(call<math/big.NewInt>(0), call<(*math/big.Int).And>(self, $E, call<math/big.NewInt>(2047)), ...))))"
+				pat := "call<(repo/pkg/bip39/wordlist.List).Word>(load(global<repo/pkg/bip39.wordList>), conv<int>(call<(*math/big.Int).Int64|(*math/big.Int).Uint64>(obj(alloc<math/big.Int>, call<(*math/big.Int).And>(self, $E, call<math/big.NewInt>(2047)), ...))))"
 				vb, okV := ana.Match(pat, vt)
 				if !okV {
 					r.Viol("C03.bit-layout.encode-word", c.ipos(st), "stored word is not wordList.Word(int(bigEntropy & mask)): %s", short(vt.String(), 300))
